@@ -4,6 +4,9 @@ Tie: correspondence. The converter classes of `xml_types/dataconverters.py` and 
 parse_duration` are called directly and compared with the Lean model (`SdcModel/Scalars.lean` on the bit-exact
 binary64 model `SdcModel/Fp64.lean`); floats are compared bit by bit through `float.hex()`. The enum literal tables
 are regenerated into `Generated/ScalarsEnums.lean` by introspection on every run. Date/time: `SdcModel/ScalarsDt.lean`.
+End to end: every scalar attribute / text element property of pm_types, msg_types and the container classes (and a probe class
+with truthy implied values) is read through an instance for zero / false / empty and ordinary literals and compared with the
+converter and with the model.
 """
 from __future__ import annotations
 
@@ -34,7 +37,8 @@ TRUSTED = ['CPython binary64 arithmetic = IEEE-754 round-to-nearest-even (int/in
            're.fullmatch of the two lexical patterns (transcribed as recognisers, under correspondence incl. non-ASCII digits, signs, underscores, exponents)',
            'repr(float) shortest round trip and Decimal(repr(x)) (XsdDateInformation.__str__): the model starts from the decimal text',
            're module matching of __DATETIME_PATTERN__ / __SDPI_REGEX_DURATION__ (transcribed as recognisers with the same alternative priorities, under correspondence)']
-ASSUMPTIONS = ['floats stay in the normal binary64 range (no subnormal result, no overflow); timestamps are non-negative',
+ASSUMPTIONS = ['the end-to-end tie reads one attribute / element at a time through prop.update_from_node + instance attribute access (object.__new__, no constructor)',
+               'floats stay in the normal binary64 range (no subnormal result, no overflow); timestamps are non-negative',
                'DecimalConverter.USE_DECIMAL_TYPE is True (library default) and py values handed to DecimalConverter.to_xml are Decimal or int']
 
 TS_LIMIT = (1 << 53) // 1000            # every n with n * 1000 < 2^53
@@ -481,6 +485,47 @@ def duration_lexical_oracle(ctx, s, res):
         ctx.fail('lexical:duration-valid-rejected', f'parse_duration({s!r}) raised {res[1]}', {'kind': 'durs', 's': s})
 
 
+def gen_duration_strings(rng, n):
+    """legal duration literals: every combination of H / M / S parts, fractions of 0..12 digits (foreign producers write
+    nanoseconds or 100 ns ticks), a quarter of them mutated"""
+    res = []
+    for i in range(n):
+        parts = ['PT']
+        if rng.random() < 0.5:
+            parts.append(f'{rng.randrange(10 ** rng.randrange(1, 8))}H')
+        if rng.random() < 0.5:
+            parts.append(f'{rng.randrange(10 ** rng.randrange(1, 5))}M')
+        if rng.random() < 0.8 or len(parts) == 1:
+            sec = str(rng.randrange(10 ** rng.randrange(1, 6)))
+            nd = rng.randrange(0, 13)
+            if nd:
+                frac = ''.join(rng.choice('0123456789') for _ in range(nd))
+                if rng.random() < 0.3:
+                    z = rng.randrange(nd + 1)
+                    frac = frac[:nd - z] + '0' * z          # trailing zeros: 'PT1.5000000S'
+                sec += '.' + frac
+            parts.append(sec + 'S')
+        s = ''.join(parts)
+        if rng.random() < 0.25:
+            s = _mutate(rng, s)
+        res.append(s)
+    return res
+
+
+RE_DUR_G = re.compile(r'PT(?=.)(?:([0-9]+)H)?(?:([0-9]+)M)?(?:([0-9]+(?:\.[0-9]+)?)S)?\Z')
+
+
+def duration_value_oracle(ctx, s, res):
+    """XML -> Python: the value of a legal duration literal is delivered within the microsecond resolution"""
+    m = RE_DUR_G.match(s.strip(XML_WS))
+    if m is None or res[0] != 'ok':
+        return
+    want = int(m.group(1) or 0) * 3600 + int(m.group(2) or 0) * 60 + fractions.Fraction(m.group(3) or '0')
+    got = fractions.Fraction(res[1])
+    if abs(got - want) > fractions.Fraction(1, 10 ** 6) + want / 2 ** 52:
+        ctx.fail('duration:xml-py', f'parse_duration({s!r}) == {res[1]!r}, the literal says {float(want)!r} s', {'kind': 'durs', 's': s})
+
+
 def run_durations(ctx, dc, iso):
     rng = ctx.subrng('dur')
     b = Batch(ctx)
@@ -535,29 +580,168 @@ def run_durations(ctx, dc, iso):
             'PT24000000000H', 'PT1439999999999M', 'PT1440000000000M59.999999S', 'PT86399999999999S', 'PT86400000000000S', 'PT86399999999999.999999S',
             'PT0.999999S', 'PT0.9999995S', 'PT0.9999994S', 'PT59.9999995S', 'PT00001S', 'PT0H0M0S', 'PT0.0S', 'PT1' + '0' * 400 + 'S', 'PT0.' + '0' * 400 + '1S', 'PT1.' + '9' * 30 + 'S',
             'PT9007199254740993S', 'PT9007199254.740993S', 'PT4503599627370497.5S']
-    for _ in range(ctx.n(20000, 200000)):
-        parts = ['PT']
-        if rng.random() < 0.5:
-            parts.append(f'{rng.randrange(10 ** rng.randrange(1, 8))}H')
-        if rng.random() < 0.5:
-            parts.append(f'{rng.randrange(10 ** rng.randrange(1, 5))}M')
-        if rng.random() < 0.7:
-            sec = str(rng.randrange(10 ** rng.randrange(1, 6)))
-            if rng.random() < 0.6:
-                nd = rng.choice([1, 2, 3, 6, 6, 6, 7, 8, 9, 12])
-                sec += '.' + ''.join(rng.choice('0123456789') for _ in range(nd))
-            parts.append(sec + 'S')
-        s = ''.join(parts)
-        if rng.random() < 0.25:
-            s = _mutate(rng, s)
-        strs.append(s)
+    strs += gen_duration_strings(rng, ctx.n(20000, 200000))
     for s in strs:
         r = call(C.to_py, s)
         b.add('durpy ' + hx(s), 'ok ' + fp_str(r[1]) if r[0] == 'ok' else 'err ' + r[1], 'parse_duration', {'s': s})
         duration_lexical_oracle(ctx, s, r)
+        duration_value_oracle(ctx, s, r)
         ctx.count('dur:to_py:' + (r[0] if r[0] == 'ok' else r[1]))
         ctx.case(('durs', s))
     b.flush()
+
+
+# ---------------------------------------------------------------------------------------------------------------
+# end to end through the declarative properties (xml_structure): what an instance delivers for a PRESENT attribute /
+# element is the converter's result for that literal (also zero / false / empty); only an absent one is implied
+PROP_LITERALS = {
+    'decimal': ['0', '0.0', '0.000', '-0', '+0.00', '1', '0.5', '0.25', '0.001', '-1.5', '123456789012345678', '0.123456789012345678', ' 0 '],
+    'duration': ['PT0S', 'PT0.0S', 'PT0H0M0S', 'PT0M', 'PT1S', 'PT0.5S', 'PT0.000001S', 'PT2M', 'PT1H2M3.25S'],
+    'boolean': ['true', '1', 'false', '0'],
+    'integer': ['0', '-0', '+0', '00', '7', '-3', '4294967295'],
+    'timestamp': ['0', '1', '1001', '1700000000123'],
+    'string': ['', 'abc', '0'],
+}
+
+
+def _conv_kind(conv, dc):
+    if isinstance(conv, dc.EnumConverter):
+        return 'enum'
+    if not inspect.isclass(conv):
+        return None
+    for k, c in (('timestamp', dc.TimestampConverter), ('decimal', dc.DecimalConverter), ('duration', dc.DurationConverter),
+                 ('boolean', dc.BooleanConverter), ('integer', dc.IntegerConverter), ('string', dc.StringConverter)):
+        if issubclass(conv, c):
+            return k
+    return None
+
+
+def _canon_value(kind, v):
+    """canonical text of a python value, same format as the model driver answers"""
+    if kind == 'decimal':
+        return 'ok ' + dec_tuple(v)
+    if kind in ('duration', 'timestamp'):
+        return 'ok ' + fp_str(float(v))
+    if kind == 'boolean':
+        return 'ok true' if v is True else 'ok false' if v is False else f'ok {v!r}'
+    if kind == 'integer':
+        return f'ok {v}'
+    return None
+
+
+def _same(a, b):
+    if type(a) is not type(b):
+        return False
+    if isinstance(a, Decimal):
+        return a.as_tuple() == b.as_tuple()
+    if isinstance(a, float):
+        return a.hex() == b.hex()
+    return a == b
+
+
+def _scalar_props(dc):
+    """(class, attribute name of the class, property object, kind, is attribute) for every scalar attribute / text element
+    property of the data type and container classes, plus a probe class in which every property has a truthy implied value"""
+    from lxml import etree
+    from sdc11073.mdib import descriptorcontainers, statecontainers
+    from sdc11073.xml_types import msg_types, pm_types
+    from sdc11073.xml_types import xml_structure as xs
+    from sdc11073.xml_types.basetypes import XMLTypeBase
+    ns = 'urn:verif:c18'
+
+    class Probe(XMLTypeBase):
+        Dec = xs.DecimalAttributeProperty('Dec', implied_py_value=Decimal(1))
+        Dur = xs.DurationAttributeProperty('Dur', implied_py_value=1.0)
+        Boo = xs.BooleanAttributeProperty('Boo', implied_py_value=True)
+        Int = xs.IntegerAttributeProperty('Int', implied_py_value=7)
+        Ts = xs.TimestampAttributeProperty('Ts', implied_py_value=5.0)
+        Str = xs.StringAttributeProperty('Str', implied_py_value='x')
+        En = xs.EnumAttributeProperty('En', enum_cls=pm_types.MetricAvailability, implied_py_value=pm_types.MetricAvailability.CONTINUOUS)
+        EDec = xs.NodeDecimalProperty(etree.QName(ns, 'EDec'), implied_py_value=Decimal(1), is_optional=True)
+        EInt = xs.NodeIntProperty(etree.QName(ns, 'EInt'), implied_py_value=7, is_optional=True)
+        EDur = xs.NodeDurationProperty(etree.QName(ns, 'EDur'), implied_py_value=1.0, is_optional=True)
+        EStr = xs.NodeStringProperty(etree.QName(ns, 'EStr'), implied_py_value='x', is_optional=True)
+        _props = ('Dec', 'Dur', 'Boo', 'Int', 'Ts', 'Str', 'En', 'EDec', 'EInt', 'EDur', 'EStr')
+    res, seen = [], set()
+    classes = [Probe]
+    for mod in (pm_types, msg_types, descriptorcontainers, statecontainers):
+        classes += [c for _, c in sorted(vars(mod).items()) if inspect.isclass(c) and c.__module__ == mod.__name__]
+    for cls in classes:
+        for klass in cls.__mro__:
+            for name, prop in vars(klass).items():
+                if id(prop) in seen or not isinstance(prop, (xs._AttributeBase, xs.NodeTextProperty)) or isinstance(prop, xs._AttributeListBase):
+                    continue
+                kind = _conv_kind(prop._converter, dc)
+                if kind is None:
+                    continue
+                seen.add(id(prop))
+                res.append((klass, name, prop, kind, isinstance(prop, xs._AttributeBase)))
+    return res
+
+
+def _read_through_property(klass, name, prop, is_attr, literal):
+    """the value an instance of klass delivers for the property when the node carries `literal` (None = absent)"""
+    from lxml import etree
+    inst = object.__new__(klass)
+    node = etree.Element('x')
+    if literal is not None:
+        if is_attr:
+            node.set(prop._attribute_name, literal)
+        elif prop._sub_element_name is None:
+            node.text = literal
+        else:
+            etree.SubElement(node, prop._sub_element_name).text = literal
+    node = etree.fromstring(etree.tostring(node))        # what a parser delivers (empty text is None)
+    prop.update_from_node(inst, node)
+    return getattr(inst, name)
+
+
+def property_oracle(ctx, klass, name, prop, kind, is_attr, literal):
+    where = f'{klass.__module__.split(".")[-1]}.{klass.__name__}.{name}'
+    case = {'kind': 'prop', 'cls': f'{klass.__module__}.{klass.__name__}', 'name': name, 'literal': literal}
+    exp = call(prop._converter.to_py, literal if (is_attr or literal != '') else None)
+    got = call(_read_through_property, klass, name, prop, is_attr, literal)
+    if exp[0] != got[0] or (exp[0] == 'ok' and not _same(got[1], exp[1])):
+        ctx.fail('property:present-value-replaced', f'{where} = "{literal}": instance delivers {got[1]!r}, the converter says {exp[1]!r}', case)
+    return got
+
+
+def run_properties(ctx, dc, b):
+    props = _scalar_props(dc)
+    for klass, name, prop, kind, is_attr in props:
+        implied = prop._implied_py_value
+        lits = [m.value for m in prop._converter._klass] if kind == 'enum' else PROP_LITERALS[kind]
+        ctx.count('prop:' + kind + (':implied' if implied is not None else ''))
+        for lit in lits:
+            got = property_oracle(ctx, klass, name, prop, kind, is_attr, lit)
+            canon = _canon_value(kind, got[1]) if got[0] == 'ok' else 'err ' + got[1]
+            op = {'decimal': 'decpy', 'duration': 'durpy', 'boolean': 'bool', 'integer': 'int', 'timestamp': 'tspy'}.get(kind)
+            if b is not None and op is not None and canon is not None:
+                b.add(f'{op} ' + hx(lit), canon, 'literal read through ' + type(prop).__name__, {'cls': klass.__name__, 'name': name, 'literal': lit})
+            ctx.case(('prop', klass.__name__, name, lit), nontrivial=implied is not None or not lit.strip('+-0. PTSHM'))
+        # absent: the implied value (or None); the text of the node itself cannot be absent
+        if not is_attr and prop._sub_element_name is None:
+            continue
+        got = call(_read_through_property, klass, name, prop, is_attr, None)
+        if got[0] != 'ok' or not (got[1] is implied or (implied is not None and _same(got[1], implied))):
+            ctx.fail('property:absent-value', f'{klass.__name__}.{name} absent: instance delivers {got[1]!r}, implied value is {implied!r}',
+                     {'kind': 'prop', 'cls': f'{klass.__module__}.{klass.__name__}', 'name': name, 'literal': None})
+    ctx.notes['properties'] = f'{len(props)} scalar attribute / text element properties read through instances, {sum(1 for p in props if p[2]._implied_py_value is not None)} with an implied value'
+    if b is not None:
+        b.flush()
+
+
+def replay_property_case(ctx, case):
+    dc, _ = _mods()
+    for klass, name, prop, kind, is_attr in _scalar_props(dc):
+        if name == case['name'] and (f'{klass.__module__}.{klass.__name__}' == case['cls'] or klass.__name__ == 'Probe' and case['cls'].endswith('.Probe')):
+            if case['literal'] is None:
+                got = call(_read_through_property, klass, name, prop, is_attr, None)
+                if got[0] != 'ok' or got[1] != prop._implied_py_value:
+                    ctx.fail('property:absent-value', f'{case}', case)
+            else:
+                property_oracle(ctx, klass, name, prop, kind, is_attr, case['literal'])
+            return
 
 
 # ---------------------------------------------------------------------------------------------------------------
@@ -750,6 +934,7 @@ def run(ctx):
     run_lexical(ctx, dc)
     run_decimals(ctx, dc)
     run_durations(ctx, dc, iso)
+    run_properties(ctx, dc, Batch(ctx))
     run_datetime(ctx, iso)
     T, D, C = dc.TimestampConverter, dc.DecimalConverter, dc.DurationConverter
     ctx.samples[:] = [
@@ -778,20 +963,29 @@ def run_corpus(ctx, dc, iso):
 
 
 def search(ctx):
-    """deeper failing-input search: the oracles over a larger dense window and more random values"""
+    """deeper failing-input search: every oracle on more inputs, cheap ones first"""
     dc, iso = _mods()
-    for n in range(200_000, 3_000_000):
-        if not ts_oracle_n(ctx, dc, n):
-            return
     rng = ctx.subrng('search')
-    for _ in range(2_000_000):
-        if not ts_oracle_n(ctx, dc, rng.randrange(TS_LIMIT)):
-            return
+    for s in gen_duration_strings(rng, 200_000):
+        r = call(dc.DurationConverter.to_py, s)
+        duration_lexical_oracle(ctx, s, r)
+        duration_value_oracle(ctx, s, r)
+    if ctx.failures:
+        return
+    run_properties(ctx, dc, None)
+    if ctx.failures:
+        return
     for _ in range(300_000):
         nd = rng.randrange(1, 19)
         d = mk_dec(rng.randrange(2), rng.randrange(10 ** (nd - 1), 10 ** nd), rng.randrange(-18, 19))
         dec_oracle(ctx, dc, d, True)
-        if ctx.failures:
+    if ctx.failures:
+        return
+    for n in range(200_000, 3_000_000):
+        if not ts_oracle_n(ctx, dc, n):
+            return
+    for _ in range(2_000_000):
+        if not ts_oracle_n(ctx, dc, rng.randrange(TS_LIMIT)):
             return
 
 
@@ -826,7 +1020,11 @@ def _replay_case(ctx, dc, iso, case, report=False):
         if p != td_us(x) / 10 ** 6:
             ctx.fail('duration:roundtrip', f'{x!r} -> {s!r} -> {p!r}', case)
     elif k == 'durs':
-        duration_lexical_oracle(ctx, case['s'], call(dc.DurationConverter.to_py, case['s']))
+        r = call(dc.DurationConverter.to_py, case['s'])
+        duration_lexical_oracle(ctx, case['s'], r)
+        duration_value_oracle(ctx, case['s'], r)
+    elif k == 'prop':
+        replay_property_case(ctx, case)
     elif k == 'enum':
         cls = dict(_enum_classes())[case['cls']]
         r = call(dc.EnumConverter(cls).to_py, case['s'])
